@@ -3,4 +3,5 @@ package main
 import (
 	_ "google.golang.org/protobuf/verifmc/checks/c01"
 	_ "google.golang.org/protobuf/verifmc/checks/c02"
+	_ "google.golang.org/protobuf/verifmc/checks/c03"
 )
